@@ -104,7 +104,7 @@ func presetFor(prop string) opsimOpts {
 	case "C17":
 		o.Slow, o.Sched, o.FailPct, o.MaxHooks, o.Shutdown = true, 60, 25, 3, true
 	case "C18":
-		o.Sched, o.Settings, o.Writes, o.NsDynamic = 50, true, 24, false
+		o.Sched, o.Settings, o.Writes, o.NsDynamic, o.FailPct = 50, true, 24, false, 20
 	}
 	return o
 }
